@@ -12,6 +12,11 @@ func (Engine) Generate(r *core.Rng, property, tier string) *core.Plan {
 	p.SetKnob("actors", int64(r.Range(3, 6)))
 	p.SetKnob("maturity", int64(r.Range(0, 3)))
 	g := &gen{r: r, p: p, prop: property}
+	if property == "C32" || r.Bool(0.2) {
+		// emergency policy: one actor's address is frozen from some height on
+		p.SetKnob("frozen", int64(r.Intn(6)))
+		p.SetKnob("frozenh", p.Knob("maturity", 2)+3+int64(r.Intn(14)))
+	}
 	n := r.Range(12, 45)
 	if tier == "thorough" {
 		n = r.Range(12, 80)
@@ -40,6 +45,9 @@ func (Engine) Generate(r *core.Rng, property, tier string) *core.Plan {
 		g.on["fork"], g.on["reorder"], g.on["badblock"] = true, true, true
 	case "C14":
 		g.on["fork"] = true
+	case "C07":
+		g.on["badblock"] = true
+		g.badKinds = []string{"merkle", "dup-tx", "dup-tx", "second-coinbase", "no-coinbase"}
 	}
 	if g.faultFree {
 		for k := range g.on {
@@ -69,6 +77,7 @@ type gen struct {
 	on        map[string]bool
 	faultFree bool
 	bias      []int
+	badKinds  []string
 }
 
 func (g *gen) goodTx() TxSpec {
@@ -146,6 +155,9 @@ func (g *gen) block() *BlockSpec {
 	}
 	if g.on["badblock"] && r.Bool(0.15) {
 		bads := []string{"ts-old", "bits", "reward+1", "reward-1", "merkle", "dup-tx", "second-coinbase", "no-coinbase", "pow", "ts-future"}
+		if len(g.badKinds) > 0 {
+			bads = g.badKinds
+		}
 		b.Bad = bads[r.Intn(len(bads))]
 	}
 	if g.on["reorder"] && r.Bool(0.3) {
@@ -154,8 +166,32 @@ func (g *gen) block() *BlockSpec {
 	return b
 }
 
+// mutStep: a valid block of 1..12 transactions and a set of single mutations.
+func (g *gen) mutStep() Step {
+	r := g.r
+	b := &BlockSpec{Miner: r.Intn(6), Dt: r.Intn(600)}
+	for k := r.Range(0, 11); k > 0; k-- {
+		b.Txs = append(b.Txs, g.goodTx())
+	}
+	kinds := []string{"change", "remove", "swap", "dup", "dup-last", "move-coinbase", "second-coinbase"}
+	var muts []MutSpec
+	for _, k := range kinds {
+		for rep := r.Range(1, 3); rep > 0; rep-- {
+			muts = append(muts, MutSpec{Kind: k, I: r.Intn(16), J: r.Intn(16)})
+		}
+		if k == "dup" || k == "dup-last" || k == "second-coinbase" || k == "move-coinbase" {
+			muts = append(muts, MutSpec{Kind: k, I: r.Intn(16), J: r.Intn(16), Reroot: true})
+		}
+	}
+	return Step{Op: "blockmut", Block: b, Muts: muts}
+}
+
 func (g *gen) step() {
 	r := g.r
+	if (g.prop == "C07" && r.Bool(0.45)) || (g.prop != "C07" && g.on["badblock"] && r.Bool(0.04)) {
+		g.p.Add(g.mutStep())
+		return
+	}
 	switch r.Pick(50, 12, 18, 8, 3, 4) {
 	case 0:
 		g.p.Add(Step{Op: "mine", Block: g.block()})
